@@ -189,11 +189,13 @@ impl ClockShared {
 
 	#[must_use]
 	pub fn ticks(&self) -> u64 {
+		verif_hook!("clock.read.ticks.pre", 0, 0);
 		self.ticks.load(Ordering::SeqCst)
 	}
 
 	#[must_use]
 	pub fn fractional_position(&self) -> f64 {
+		verif_hook!("clock.read.frac.pre", 0, 0);
 		f64::from_bits(self.fractional_position.load(Ordering::SeqCst))
 	}
 
@@ -291,6 +293,7 @@ impl Clock {
 	fn reset(&mut self) {
 		self.state = State::NotStarted;
 		self.shared.ticks.store(0, Ordering::SeqCst);
+		verif_hook!("clock.reset.post", 0, 0);
 	}
 
 	fn update_shared(&mut self) {
@@ -301,10 +304,13 @@ impl Clock {
 				fractional_position,
 			} => (*ticks, *fractional_position),
 		};
+		verif_hook!("clock.pub.pre", ticks, fractional_position.to_bits());
 		self.shared.ticks.store(ticks, Ordering::SeqCst);
+		verif_hook!("clock.pub.mid", ticks, fractional_position.to_bits());
 		self.shared
 			.fractional_position
 			.store(fractional_position.to_bits(), Ordering::SeqCst);
+		verif_hook!("clock.pub.post", ticks, fractional_position.to_bits());
 	}
 
 	/// Updates the [`Clock`].
